@@ -204,6 +204,7 @@ Definition run_0401 (input impl : sx) : sx :=
   let input6 := match input with
                 | SL [v; pr; f; fan; cap; chunk; _] => SL [v; pr; f; fan; cap; chunk]
                 | SL [v; pr; f; fan; cap; chunk; _; _] => SL [v; pr; f; fan; cap; chunk]   (* + transport *)
+                | SL [v; pr; f; fan; cap; chunk; _; _; _] => SL [v; pr; f; fan; cap; chunk]   (* + source Opens held *)
                 | _ => input
                 end in
   match input6, impl with
@@ -233,18 +234,21 @@ Definition run_0401 (input impl : sx) : sx :=
       let c5 := N.eqb follow 0 in
       (* Send returned nil => it was handed the receiver's FIN; Receive returned nil => it was handed the echo *)
       let c6 := (negb (N.eqb snd_ 0) || negb (N.eqb fins 0)) && (negb (N.eqb rcv 0) || negb (N.eqb finr 0)) in
+      (* fault_free_completes as an oracle: when no fault fired (and the stream is not the gated
+         fan-out stream that blocks every DATA send) both calls return nil *)
+      let c7 := fired' || gated || (N.eqb snd_ 0 && N.eqb rcv 0) in
       let k3 := match cf, tgt with
                 | COpen _, Some a =>
-                    fs' && c1 && c3 && c4 && c5 && c6 &&
+                    fs' && c1 && c3 && c4 && c5 && c6 && c7 &&
                     match nth_error cs a, diffs with
                     | Some c, [SB d] => bytes_eqb d (ce_path c)
                     | _, _ => false
                     end
                 | _, _ => false
                 end in
-      let info := SL ([of_bool c1; of_bool c2; of_bool c3; of_bool c4; of_bool c5; of_bool c6]
+      let info := SL ([of_bool c1; of_bool c2; of_bool c3; of_bool c4; of_bool c5; of_bool c6; of_bool c7]
                       ++ (if k3 then [SL [SB tag_sig; SB sig_k3]] else [])) in
-      verdict model impl (c1 && c2 && c3 && c4 && c5 && c6) info
+      verdict model impl (c1 && c2 && c3 && c4 && c5 && c6 && c7) info
     | _, _, _, _, _, _, _, _ => v_malformed
     end
   | _, _ => v_malformed
